@@ -1,4 +1,4 @@
-import Spade.Proofs.LinkInv.Base
+import Spade.Proofs.CcwBase
 namespace Spade
 namespace St
 
@@ -139,6 +139,91 @@ theorem LInv.cnCore {s : St} (hs : LInv s) (e0 : Nat) (p : Pt) (d : Nat) (b_0 : 
     unfold St.cnCore
     rcases hx' with h | h <;> subst h
     all_goals (refine ⟨?_, ?_⟩ <;> evw [b_0, b_1, b_2, d_0_1, d_0_1.symm, d_0_2, d_0_2.symm, n_0, (n_0 _).symm, m_0, m_0.symm, u_0, n_1, (n_1 _).symm, m_1, m_1.symm, u_1, n_2, (n_2 _).symm, m_2, m_2.symm, u_2, fb1] <;> grind)
+
+set_option maxHeartbeats 4000000 in
+/-- a new vertex strictly on the outer side of a hull edge: the new face is counter-clockwise, all others are unchanged -/
+theorem CInv.cnCore_ccw {s : St} (hc : CInv s) (e0 : Nat) (p : Pt) (d : Nat) (b_0 : e0 < s.nE)
+    (hfc : s.fc e0 = 0) (hgeo : 0 < orient (s.A e0) (s.B e0) p) :
+    ∀ x, x < (cnCore s e0 (s.nxt e0) (s.prv e0) (s.org e0) (s.org (s.rv e0)) (s.fc e0) p d).nE → CcwE (cnCore s e0 (s.nxt e0) (s.prv e0) (s.org e0) (s.org (s.rv e0)) (s.fc e0) p d) x := by
+  have hs := hc.links
+  have ev0 := hs.even
+  have E0 := hs.edge e0 b_0
+  have b_1 : s.nxt e0 < s.nE := E0.2.1
+  have b_2 : s.prv e0 < s.nE := E0.2.2.1
+  have E1 := hs.edge _ b_1
+  have E2 := hs.edge _ b_2
+  have a4 : s.nxt (s.prv e0) = e0 := E0.2.2.2.2.2.2.1
+  have a5 : s.prv (s.nxt e0) = e0 := E0.2.2.2.2.2.1
+  have f1 : s.fc (s.nxt e0) = 0 := by rw [E0.2.2.2.2.2.2.2.1]; exact hfc
+  have f2 : s.fc (s.prv e0) = 0 := by
+    have := E2.2.2.2.2.2.2.2.1; rw [a4, hfc] at this; exact this.symm
+  have l0 := hs.rv_lt b_0
+  have l1 := hs.rv_lt b_1
+  have l2 := hs.rv_lt b_2
+  have r0 := hs.rv_rv b_0
+  have rne := hs.rv_ne b_0
+  unfold A B dst at hgeo
+  have g1a := hgeo; rw [← orient_rot] at g1a
+  have g1b := g1a; rw [← orient_rot] at g1b
+  generalize hen : s.nxt e0 = en at *
+  generalize hep : s.prv e0 = ep at *
+  have d_0_1 : e0 ≠ en := by unfold EdgeOK dst at *; grind
+  have d_0_2 : e0 ≠ ep := by unfold EdgeOK dst at *; grind
+  have n_0 : ∀ k, s.nE + k ≠ e0 := by intro k; omega
+  have m_0 : s.nE ≠ e0 := by omega
+  have u_0 : ∀ k, e0 < s.nE + k := by intro k; omega
+  have n_1 : ∀ k, s.nE + k ≠ en := by intro k; omega
+  have m_1 : s.nE ≠ en := by omega
+  have u_1 : ∀ k, en < s.nE + k := by intro k; omega
+  have n_2 : ∀ k, s.nE + k ≠ ep := by intro k; omega
+  have m_2 : s.nE ≠ ep := by omega
+  have u_2 : ∀ k, ep < s.nE + k := by intro k; omega
+  have L_0 := hs.rv_lt b_0
+  have rvn_0 : ∀ k, s.rv e0 ≠ s.nE + k := by intro k; omega
+  have rvm_0 : s.rv e0 ≠ s.nE := by omega
+  have on_0 : s.org e0 ≠ s.nV := by have := (hs.edge _ b_0).1; omega
+  have orn_0 : s.org (s.rv e0) ≠ s.nV := by have := (hs.edge _ L_0).1; omega
+  have L_1 := hs.rv_lt b_1
+  have rvn_1 : ∀ k, s.rv en ≠ s.nE + k := by intro k; omega
+  have rvm_1 : s.rv en ≠ s.nE := by omega
+  have on_1 : s.org en ≠ s.nV := by have := (hs.edge _ b_1).1; omega
+  have orn_1 : s.org (s.rv en) ≠ s.nV := by have := (hs.edge _ L_1).1; omega
+  have L_2 := hs.rv_lt b_2
+  have rvn_2 : ∀ k, s.rv ep ≠ s.nE + k := by intro k; omega
+  have rvm_2 : s.rv ep ≠ s.nE := by omega
+  have on_2 : s.org ep ≠ s.nV := by have := (hs.edge _ b_2).1; omega
+  have orn_2 : s.org (s.rv ep) ≠ s.nV := by have := (hs.edge _ L_2).1; omega
+  have szE : (s.cnCore e0 en ep (s.org e0) (s.org (s.rv e0)) (s.fc e0) p d).nE = s.nE + 4 := by unfold St.cnCore; evw [b_0, b_1, b_2, d_0_1, d_0_1.symm, d_0_2, d_0_2.symm, n_0, (n_0 _).symm, m_0, m_0.symm, u_0, n_1, (n_1 _).symm, m_1, m_1.symm, u_1, n_2, (n_2 _).symm, m_2, m_2.symm, u_2]
+  intro x hx hfx
+  rw [szE] at hx
+  by_cases hT : x = e0 ∨ x = en ∨ x = ep ∨ x = s.nE ∨ x = s.nE + 1 ∨ x = s.nE + 2 ∨ x = s.nE + 3
+  · unfold St.cnCore at hfx ⊢
+    unfold CcwE A B C opp dst EdgeOK at *
+    rcases hT with h | h | h | h | h | h | h <;> subst h
+    all_goals (revert hfx; evw [b_0, b_1, b_2, d_0_1, d_0_1.symm, d_0_2, d_0_2.symm, n_0, (n_0 _).symm, m_0, m_0.symm, u_0, n_1, (n_1 _).symm, m_1, m_1.symm, u_1, n_2, (n_2 _).symm, m_2, m_2.symm, u_2, hen, hep, a4, a5, hfc, f1, f2, rvn_0, rvm_0, on_0, orn_0, rvn_1, rvm_1, on_1, orn_1, rvn_2, rvm_2, on_2, orn_2]; intro hfx; grind (splits := 40))
+  · simp only [not_or] at hT
+    obtain ⟨t_0, t_1, t_2, t_3, t_4, t_5, t_6⟩ := hT
+    have hlt : x < s.nE := by omega
+    have Ex := hs.edge x hlt
+    have rx := hs.rv_rv hlt
+    have lx := hs.rv_lt hlt
+    have kx := hc.ccw x hlt
+    have hin : ∀ k, x ≠ s.nE + k := by intro k; omega
+    have hi0 : x ≠ s.nE := by omega
+    have px := (hs.edge x hlt).2.2.1
+    have y1 : ∀ k, s.rv x ≠ s.nE + k := by intro k; omega
+    have y2 : s.rv x ≠ s.nE := by omega
+    have y3 : ∀ k, s.prv x ≠ s.nE + k := by intro k; omega
+    have y4 : s.prv x ≠ s.nE := by omega
+    have y5 : s.org x ≠ s.nV := by have := (hs.edge x hlt).1; omega
+    have y6 : s.org (s.rv x) ≠ s.nV := by have := (hs.edge _ lx).1; omega
+    have y7 : s.org (s.prv x) ≠ s.nV := by have := (hs.edge _ px).1; omega
+    unfold St.cnCore at hfx ⊢
+    unfold CcwE A B C opp dst EdgeOK at *
+    revert hfx
+    evw [b_0, b_1, b_2, d_0_1, d_0_1.symm, d_0_2, d_0_2.symm, n_0, (n_0 _).symm, m_0, m_0.symm, u_0, n_1, (n_1 _).symm, m_1, m_1.symm, u_1, n_2, (n_2 _).symm, m_2, m_2.symm, u_2, t_0, t_1, t_2, hin, hi0, hlt, y1, y2, y3, y4, y5, y6, y7]
+    intro hfx
+    grind (splits := 40)
 
 end St
 end Spade
